@@ -60,11 +60,45 @@ def wire_tree(t):
     raise ValueError(k)
 
 
-def build(t):
-    """Instantiate the real widgets from /repo for a tree spec."""
+_VTEXT = {}
+
+
+def _vtext_class(W):
+    """A TextWidget whose instances compare (and hash) by their text, like a value object: two DISTINCT widgets with the same
+    text are equal.  The framework must treat widgets as the objects they are."""
+    if W not in _VTEXT:
+        class ValueText(W.TextWidget):
+            def __init__(self, text):
+                super().__init__(text)
+                self._vt = text
+
+            def __eq__(self, other):
+                return isinstance(other, ValueText) and other._vt == self._vt
+
+            def __hash__(self):
+                return hash(self._vt)
+        _VTEXT[W] = ValueText
+    return _VTEXT[W]
+
+
+def build(t, shared=None):
+    """Instantiate the real widgets from /repo for a tree spec.
+    Equal plain texts among the DIRECT items of one list container, or among the direct items of a window and of the list
+    containers directly inside it, are ONE widget object used at several places (an application's shared "n/a" placeholder):
+    in these positions the object is rendered again right before each use or always to the same width, so the result is that
+    of equal copies (what the model's trees are)."""
     from simpleline.render import widgets as W, containers as C
     k = t[0]
+
+    def item(x, local):
+        if x[0] == "text" and local is not None and len(x[1]) % 3 != 2:
+            if x[1] not in local:
+                local[x[1]] = build(x)
+            return local[x[1]]
+        return build(x, local if x[0] == "list" else None)
     if k == "text":
+        if len(t[1]) % 5 == 1:
+            return _vtext_class(W)(t[1])
         # every fourth text (by length) is handed over as UTF-8 BYTES: the framework accepts both (utils.ensure_str) and must
         # show the same characters
         if len(t[1]) % 4 == 3:
@@ -86,14 +120,31 @@ def build(t):
     if k == "list":
         _, kind, columns, items, forced, spacing, pat = t
         cls = C.ListColumnContainer if kind == "col" else C.ListRowContainer
-        c = cls(columns, [build(x) for x in items], columns_width=forced, spacing=spacing, numbering=pat is not None)
+        # without numbering every item of the container is rendered to the same width: equal texts are one shared object.
+        # With numbering the width left for an item depends on the length of its label ("9) " / "10) "), and all items are
+        # rendered before any is drawn: there an object is used once only (also the one shared with the enclosing window)
+        local = (shared if shared is not None else {}) if pat is None else None
+        used = set()
+        built = []
+        for x in items:
+            if x[0] == "text" and local is not None:
+                built.append(item(x, local))
+            elif x[0] == "text" and shared is not None and x[1] not in used and len(x[1]) % 3 != 2:
+                used.add(x[1])
+                if x[1] not in shared:
+                    shared[x[1]] = build(x)
+                built.append(shared[x[1]])
+            else:
+                built.append(build(x))
+        c = cls(columns, built, columns_width=forced, spacing=spacing, numbering=pat is not None)
         if pat is not None and pat != ["", ") ", 1]:
             c.key_pattern = C.KeyPattern(pat[0] + "{:d}" + pat[1], pat[2])
         return c
     if k == "window":
         c = C.WindowContainer(t[1])
+        local = {}
         for x in t[2]:
-            c.add(build(x))
+            c.add(item(x, local))
         return c
     raise ValueError(k)
 
@@ -163,11 +214,24 @@ def rand_tree(rng, depth=2, allow_window=True):
     if r < 0.85:
         n = rng.randrange(0, 8)
         pat = rng.choice([["", ") ", 1]] * 4 + [None, ["[", "] ", 0], ["", ". ", 5], ["#", " ", 98]])
-        return ["list", rng.choice(["row", "col"]), rng.randrange(1, 5),
-                [rand_tree(rng, depth - 1, False) for _ in range(n)],
+        items = [rand_tree(rng, depth - 1, False) for _ in range(n)]
+        if n >= 2 and rng.random() < 0.3:
+            # the same text at two places of one container (build() makes it ONE shared widget object)
+            texts = [x for x in items if x[0] == "text"] or [["text", rng.choice(["n/a", "-", "shared placeholder text"])]]
+            for _ in range(rng.randrange(1, 3)):
+                items[rng.randrange(n)] = list(rng.choice(texts))
+        return ["list", rng.choice(["row", "col"]), rng.randrange(1, 5), items,
                 rng.choice([None] * 5 + [6, 12, 20, 0]), rng.choice([3, 3, 0, 1, 5]), pat]
     if r < 0.92 or not allow_window:
         return ["column", [[rng.choice([None, 5, 10, 15]), [rand_tree(rng, depth - 1, False) for _ in range(rng.randrange(0, 3))]]
                            for _ in range(rng.randrange(0, 4))], rng.randrange(0, 4)]
-    return ["window", rng.choice([None, "", "Title", rand_text(rng, 5, False)]),
-            [rand_tree(rng, depth - 1, False) for _ in range(rng.randrange(0, 5))]]
+    witems = [rand_tree(rng, depth - 1, False) for _ in range(rng.randrange(0, 5))]
+    if witems and rng.random() < 0.3:
+        # a text that is a direct item of the window AND an item of a list container inside it (one shared object)
+        lists = [x for x in witems if x[0] == "list" and x[3]]
+        if lists:
+            l = rng.choice(lists)
+            txt = ["text", rng.choice(["a fairly long notice that wraps differently in a narrow column than in the window", "n/a"])]
+            l[3][rng.randrange(len(l[3]))] = list(txt)
+            witems.insert(rng.randrange(len(witems) + 1), list(txt))
+    return ["window", rng.choice([None, "", "Title", rand_text(rng, 5, False)]), witems]
